@@ -102,12 +102,56 @@ valid_axes_x = ["tip position"]
 valid_axes_y = ["force"]
 '''
 
+#: the model function takes its parameters in another order than
+#: `parameter_keys` lists them (legitimate: they are passed by keyword; the
+#: registry only warns) / as keyword-only arguments
+REORDERED_SRC = '''
+import lmfit
+import numpy as np
+
+
+def get_parameter_defaults():
+    params = lmfit.Parameters()
+    params.add("E", value=3e3, min=0)
+    params.add("R", value=10e-6, min=0, vary=False)
+    params.add("contact_point", value=0)
+    params.add("baseline", value=0)
+    return params
+
+
+def verif_reord(delta, R, baseline=0, contact_point=0, E=3e3):
+    """paraboloid; arguments in an order of their own"""
+    root = contact_point - delta
+    pos = root > 0
+    out = np.zeros_like(delta, dtype=float)
+    out[pos] = E * np.sqrt(R) * root[pos] ** 1.5
+    return out + baseline
+
+
+model_doc = verif_reord.__doc__
+model_func = verif_reord
+model_key = "verif_reord"
+model_name = "verif reordered arguments"
+parameter_keys = ["E", "R", "contact_point", "baseline"]
+parameter_names = ["Young's Modulus", "Tip Radius", "Contact Point",
+                   "Force Baseline"]
+parameter_units = ["Pa", "m", "m", "N"]
+valid_axes_x = ["tip position"]
+valid_axes_y = ["force"]
+'''
+
+KWONLY_SRC = REORDERED_SRC.replace("verif_reord", "verif_kwonly").replace(
+    "def verif_kwonly(delta, R, baseline=0, contact_point=0, E=3e3):",
+    "def verif_kwonly(delta, *, E, R, contact_point=0, baseline=0):")
+
 HARNESS_MODELS = {"verif_order": ORDER_SENSITIVE_SRC, "verif_anc": ANC_SRC,
-                  "verif_expr": EXPR_SRC}
+                  "verif_expr": EXPR_SRC, "verif_reord": REORDERED_SRC,
+                  "verif_kwonly": KWONLY_SRC}
 MODULI = {"hertz_para": ["E"], "hertz_cone": ["E"], "hertz_pyr3s": ["E"],
           "sneddon_spher_approx": ["E"], "sneddon_spher": ["E"],
           "power_layer_clifford_2009": ["E_S", "E_L"],
-          "verif_order": ["E"], "verif_anc": ["E"], "verif_expr": ["E"]}
+          "verif_order": ["E"], "verif_anc": ["E"], "verif_expr": ["E"],
+          "verif_reord": ["E"], "verif_kwonly": ["E"]}
 PLUGIN = "sneddon_spher"
 
 
@@ -178,6 +222,24 @@ def ulp(x):
 
 
 def contract_case(case):
+    """a registered model that cannot be evaluated at all breaks every
+    clause: reported, not a harness crash"""
+    try:
+        return _contract_case(case)
+    except BaseException as e:
+        if isinstance(e, (KeyboardInterrupt, SystemExit, MemoryError,
+                          RuntimeError)):
+            raise
+        import traceback
+        where = traceback.extract_tb(e.__traceback__)[-1]
+        return [V(PROP, "model-raises", site=case["model"],
+                  witness=type(e).__name__, detail=f"evaluating the "
+                  f"registered model raised {e!r} (in {where.name}, "
+                  f"{where.filename.split('/')[-1]}:{where.lineno})",
+                  case=case, kind="grid")], ("raises", case["model"])
+
+
+def _contract_case(case):
     from nanite import model as nmodel
     register_harness_models()
     mk = case["model"]
